@@ -118,58 +118,12 @@ class CHECK(core.Check):
                   "until close (C30_response_wire_length / _chunked / _until_close); the WSGI environment built from a parsed "
                   "request carries its method, path, query, scheme, body, Content-Type/Length and every header "
                   "(C30_environ_consistent); and a WSGI application without Content-Length served by Responder.service is "
-                  "read back by the client with the same status, headers and body (C30_responder_frames_chunked).")
+                  "read back by the client with the same status, headers and body (C30_responder_frames_chunked). Partial: "
+                  "C30_built_request_roundtrip_partial (what Requester.build assembles parses back, given well-formed entries).")
     LEVEL_NOTE = ("Trusted: Lean kernel; axioms propext, Classical.choice, Quot.sound; the hand transcription of httping.py, "
                   "clienting.py (Requester, Respondent) and serving.py (Requestant, Responder, buildEnviron) validated only "
                   "by the correspondence runs (which also tie the builders to the wire format the theorems speak about); "
                   "CPython's urllib.parse and json (parameters / inputs of the model); stand-ins for connection, clock, Valet.")
-
-    def __init__(self):
-        self.txes = []
-        self.timeout = 1.0
-        self.ca = ("127.0.0.1", 50000)
-
-    def tx(self, data):
-        self.txes.append(bytes(data))
-
-
-class _FakeDatetimeModule:
-    class datetime(datetime.datetime):
-        @classmethod
-        def utcnow(cls):
-            return FIXED_NOW
-
-
-class CHECK(core.Check):
-    PROPERTY = "C30"
-    LEAN_MODULES = ["IofloModel.Props.C30"]
-    ENGINE = "httpcodec"
-    N_QUICK = 500
-    N_THOROUGH = 20000
-    N_SEARCH = 1500
-    RULE = ("four case kinds from one PRNG: chunk (binary data 0..3000 bytes + arbitrary rest), header blocks (token "
-            "names in mixed case, latin-1 values with blanks, ':' and ',' inside, str/int/bytes values, "
-            "duplicates), requests (all 9 methods, unicode paths with blanks and reserved characters, query names that "
-            "are URL tokens with arbitrary unicode values, query inside the path, user headers, binary bodies, JSON "
-            "values, form args with arbitrary keys/values) and WSGI responses (Content-Length given / chunked / streamed "
-            "until close / empty / HTTPError before and after the first write / return value / empty yields / pieces "
-            "exceeding Content-Length); ~12% malformed stream (raw bytes to parseChunk, parseLeader, the request and "
-            "response parsers). Non-trivial = a message was built and parsed back completely; distinct by content")
-    TRUSTED = ["correspondence: the real packChunk/parseChunk/packHeader/parseLeader, Requester.build, Requestant, "
-               "Valet.buildEnviron (called on a stand-in for the Valet), Responder (stand-in connection collecting .tx, "
-               "fixed clock for Date), Respondent of $IOFLO_REPO run in-process on the same inputs as the Lean model",
-               "urllib.parse (urlsplit, quote, unquote, quote_plus, unquote_plus) enters the model as the parameter `Std`, "
-               "instantiated from the calls the implementation made; json.dumps output is an input of the model",
-               "oracle uses CPython's parse_qsl / json.loads as the reference readers of query strings, form bodies and JSON",
-               "the model describes Requester.build as repaired by fixes/D30a (form values quoted separately; integrated in /repo)"]
-    PARTIAL = ["C30_request_roundtrip_partial: under stated laws of urlsplit/quote/unquote (hypotheses)",
-               "whole-buffer parsing only (arrival in pieces is C29); multipart/form-data bodies (random boundary), "
-               "server sent events, idna fallbacks, AttributiveGenerator overrides are outside the model"]
-    TECHNIQUE = ("Lean 4 theorems about byte-level codecs (round trips by induction over lists; structural line splitter) "
-                 "+ differential correspondence of builders and parsers on both directions")
-    LEVEL_TEXT = "see Props/C30.lean"
-    LEVEL_NOTE = ("Trusted: Lean kernel; axioms propext, Classical.choice, Quot.sound; hand transcription validated by the "
-                  "correspondence runs; CPython urllib.parse/json; stand-ins for connection, clock and Valet.")
 
     def __init__(self):
         self._trace = {}
